@@ -17,6 +17,8 @@ pub fn pool_case(data: &[u8]) -> Option<PoolCase> {
         max_idle: [0usize, 1, 2, 3, 32, 32, 32, 32][((cfg_byte >> 2) & 7) as usize],
         cont: cfg_byte & 0x20 != 0,
         req_timeout_ms: None,
+        open_is_ready: true,
+        caller_host: 0,
     };
     let mut ops = vec![];
     while !u.is_empty() && ops.len() < 160 {
